@@ -59,7 +59,7 @@ func c15Program(r *rand.Rand) gast.Program {
 	var gen func(depth int) []gast.Stmt
 	gen = func(depth int) []gast.Stmt {
 		var out []gast.Stmt
-		switch r.Intn(14) {
+		switch r.Intn(15) {
 		case 0, 1:
 			out = append(out, gast.Assign{Name: pickV(), X: id(pickV())})
 		case 2:
@@ -87,6 +87,12 @@ func c15Program(r *rand.Rand) gast.Program {
 				gast.If{C: gast.Infix{Op: "==", L: id("ix"), R: gast.IntLit{V: int64(r.Intn(2))}}, Then: []gast.Stmt{gast.Assign{Name: keep, X: id([]string{"ix", "e"}[r.Intn(2)])}, gast.Assign{Name: "arr", X: gast.ArrayLit{Els: []gast.Expr{id("ix"), id("e")}}}}},
 			}})
 			out = append(out, mut(keep))
+		case 13:
+			// a callee's parameter is called like a global: after the call the name means
+			// the global again - in the next loop, in the next call
+			out = append(out, gast.Assign{Name: "got", X: gast.Call{Fn: "shadow", Args: []gast.Expr{id("v0")}}},
+				gast.Foreach{Var: "e", It: gast.ArrayLit{Els: []gast.Expr{gast.IntLit{V: 1}}}, Body: []gast.Stmt{gast.Assign{Name: "v3", X: id("v0")}, mut("v0")}},
+				gast.Assign{Name: "arr", X: gast.ArrayLit{Els: []gast.Expr{id("got"), id("v0"), gast.Call{Fn: "peek", Args: nil}}}})
 		case 11:
 			// the same name bound in two open scopes (a parameter of the caller, a loop
 			// variable around the call) while the callee mutates its own parameter
@@ -144,7 +150,9 @@ func c15Program(r *rand.Rand) gast.Program {
 		gast.ExprStmt{X: gast.Call{Fn: "quiet", Args: []gast.Expr{id("p")}}},
 		gast.Return{X: gast.ArrayLit{Els: []gast.Expr{id("p"), id("m")}}}}}
 	bumpV3 := gast.FuncDef{Name: "bumpV3", Body: []gast.Stmt{gast.IncDec{Name: "v3", Op: "++"}, gast.OpAssign{Name: "v3", Op: "+", X: gast.IntLit{V: 2}}, gast.Return{X: gast.IntLit{V: 1}}}}
-	return gast.Program{Stmts: append([]gast.Stmt{bump, quiet, viaLocal, relay, bumpV3}, body...)}
+	shadow := gast.FuncDef{Name: "shadow", Params: []string{"v0"}, Body: []gast.Stmt{mut("v0"), gast.Return{X: id("v0")}}}
+	peek := gast.FuncDef{Name: "peek", Body: []gast.Stmt{gast.Return{X: gast.ArrayLit{Els: []gast.Expr{id("v0"), id("v1")}}}}}
+	return gast.Program{Stmts: append([]gast.Stmt{bump, quiet, viaLocal, relay, bumpV3, shadow, peek}, body...)}
 }
 
 func c15(c *ev.Ctx) {
